@@ -101,6 +101,10 @@ func runC17(c *fw.C) {
 		c17Strace(c, dir)
 		return
 	}
+	if c.Idx%12 == 5 {
+		c17RetryAndCancel(c, dir)
+		return
+	}
 	// enumerate (L, N) systematically from the case index, the rest from the PRNG
 	idx := c.Idx
 	var L, N int
@@ -209,6 +213,97 @@ func runC17(c *fw.C) {
 			c.Sample(map[string]interface{}{"payload_len": L, "cut_at_byte": N, "mode": mode, "pre_state": pre, "child_exit": res.exit, "child_killed_by": fmt.Sprint(res.sig), "load_after_restart": fmt.Sprint(lerr), "directory_after_restore": names})
 		}
 	}
+}
+
+// countingCtx reports cancellation from its n-th Err()/Done() poll onwards.
+type countingCtx struct {
+	context.Context
+	n, at int
+	ch    chan struct{}
+}
+
+func (c *countingCtx) poll() bool {
+	c.n++
+	if c.n >= c.at {
+		select {
+		case <-c.ch:
+		default:
+			close(c.ch)
+		}
+		return true
+	}
+	return false
+}
+func (c *countingCtx) Err() error {
+	if c.poll() {
+		return context.Canceled
+	}
+	return nil
+}
+func (c *countingCtx) Done() <-chan struct{} { c.poll(); return c.ch }
+
+// c17RetryAndCancel: (a) the write is refused at byte N and the SAME Persist value
+// stores the node again once the fault is gone; (b) the caller's context is
+// cancelled in the middle of Store. In both cases the node must end up absent or
+// complete, and a Store that reports success must have written all of it.
+func c17RetryAndCancel(c *fw.C, dir string) {
+	r := c.R
+	bg := context.Background()
+	L := []int{7, 100, 1024, 4097, 70000, 200000}[r.Intn(6)]
+	seed := r.U64() % 1000000
+	payload := c17Payload(L, seed)
+	name := ref.Name(payload)
+	p := file.NewPersistForPath(dir)
+	if r.Bool() {
+		N := r.Intn(L)
+		c.Desc("L=%d N=%d mode=error_retry", L, N)
+		res := runChild([]string{dir, strconv.Itoa(L), fmt.Sprint(seed), strconv.Itoa(N), "error_retry"}, nil)
+		c.Obs("children_run", 1)
+		c.Obs("same_process_retries", 1)
+		ctx := map[string]string{"mode": "error_retry", "pre": "empty"}
+		desc := fmt.Sprintf("node of %d bytes: write refused at byte %d (EFBIG), limit lifted, the same Persist stores it again; child exit=%d", L, N, res.exit)
+		if res.exit == 2 || res.signaled {
+			c.Obs("child_setup_failed", 1)
+			return
+		}
+		if res.exit == 4 {
+			c.Violation("C17.restore_repairs", ctx, "%s: the retry failed although the fault was gone", desc)
+			return
+		}
+		got, lerr := p.Load(bg, name)
+		if lerr != nil || !bytes.Equal(got, payload) {
+			c.Violation("C17.restore_repairs", ctx, "%s: after the retry reported success Load returns %d bytes, err=%v (expected the %d complete bytes)", desc, len(got), lerr, L)
+			return
+		}
+		c.NonTrivial(fw.Mix(uint64(L), uint64(N), fw.StrHash("error_retry")))
+		return
+	}
+	at := r.Range(1, 8)
+	c.Desc("L=%d mode=context_cancelled_at_poll_%d", L, at)
+	cctx := &countingCtx{Context: bg, at: at, ch: make(chan struct{})}
+	err := p.Store(cctx, name, payload)
+	c.Obs("stores_with_cancelled_context", 1)
+	ctx := map[string]string{"mode": "context_cancelled", "pre": "empty"}
+	desc := fmt.Sprintf("node of %d bytes stored with a context that reports cancellation from its poll #%d on (polled %d times); Store returned %v", L, at, cctx.n, err)
+	got, lerr := p.Load(bg, name)
+	if lerr == nil && !bytes.Equal(got, payload) {
+		c.Violation("C17.no_partial_node_visible", ctx, "%s: Load returns %d bytes instead of failing or returning the %d complete bytes", desc, len(got), L)
+		return
+	}
+	if err == nil && lerr != nil {
+		c.Violation("C17.reported_success_is_complete", ctx, "%s: Store reported success but Load fails: %v", desc, lerr)
+		return
+	}
+	if err2 := p.Store(bg, name, payload); err2 != nil {
+		c.Violation("C17.restore_repairs", ctx, "%s: re-Store with a live context failed: %v", desc, err2)
+		return
+	}
+	got, lerr = p.Load(bg, name)
+	if lerr != nil || !bytes.Equal(got, payload) {
+		c.Violation("C17.restore_repairs", ctx, "%s: after a successful re-Store Load returns %d bytes, err=%v", desc, len(got), lerr)
+		return
+	}
+	c.NonTrivial(fw.Mix(uint64(L), uint64(at), fw.StrHash("ctx_cancel")))
 }
 
 var straceLine = regexp.MustCompile(`^(\d+)\s+([a-z0-9_]+)\(`)
